@@ -96,6 +96,7 @@ def run(ctx):
     # ---- direct property oracles on the implementation
     feats, kinds = Counter(), Counter()
     n_bad = 0
+    per_sig = Counter()
     for v in verdicts:
         for f in v.get("features", []):
             feats[re.sub(r"=\d+$", "", f) if f.startswith(("prefix-steps", "maxmsg", "diff", "runs")) else f] += 1
@@ -110,8 +111,13 @@ def run(ctx):
         expect_conv = v["kind"] == "c07" or (last < len(ops) and '"op":"observe"' in ops[last])
         if expect_conv and not v["converged"]:
             problems.append(("C07:no-convergence-after-fair-suffix", f"after {v['rounds']} fair rounds (bound {v['max_rounds']}) nodes hold {v['not_union']} of the union"))
+        if v.get("post_traffic", 0) > 0:
+            problems.append(("C07:exchange-continues-after-convergence", f"{v['post_traffic']} non-gossip messages were sent in a gossip round after all XORs were equal"))
         for sig, what in problems:
             n_bad += 1
+            per_sig[sig] += 1
+            if per_sig[sig] > 2:
+                continue
             ctx.violation(sig, f"scenario {name}: {what}", f"{sig.split(':')[1]}-{name}.jsonl", replay_text(ops, header, first, last))
     # order / digest violations flagged by the canonicaliser or the model driver
     for i, l in enumerate(impl):
@@ -127,7 +133,7 @@ def run(ctx):
             ctx.violation("C07:list-reply-not-clock-sorted", "TransactionList reply to a list query is not a clock-sorted permutation of the requested present transactions",
                           "list-order.jsonl", replay_text(ops, header, sl[0][0], i) if sl else ops[i])
             break
-    ctx.oblige("oracle:never-shrink,never-invalid,union-at-quiescence(impl)", n_bad == 0, f"{n_bad} scenario problems")
+    ctx.oblige("oracle:never-shrink,never-invalid,union-at-quiescence,quiet-when-equal(impl)", n_bad == 0, f"{n_bad} scenario problems")
     # the decode contract, measured (exactness on success must be total; success on empty difference must be total)
     dc_bad = [k for k, v in dc.items() if v[2] != v[1]] + (["0"] if "0" in dc and dc["0"][1] != dc["0"][0] else [])
     ctx.oblige("decode-contract-measured(impl)", not dc_bad, f"buckets violating DC: {dc_bad} histogram {dc}")
